@@ -24,9 +24,10 @@ ELEMENTS = {
     "T3": ["tank", "leak", "init", "rate", "threshold"],
 }
 
+ELEMENTS["T4"] = ["stock", "flow", "constant", "factor"]      # XMILE-sourced, see models/xmile_t4.py
 STOCKS = {"T1": ["stock"], "T2": ["stockA", "stockB"], "T3": ["tank"]}
-CONSTANTS = {"T1": ["constant"], "T2": ["drain", "k"], "T3": ["init", "rate", "threshold"]}
-TABLES = {"T1": [], "T2": ["tbl", "tbl2"], "T3": []}
+CONSTANTS = {"T1": ["constant"], "T2": ["drain", "k"], "T3": ["init", "rate", "threshold"], "T4": ["constant"]}
+TABLES = {"T1": [], "T2": ["tbl", "tbl2"], "T3": [], "T4": ["factor"]}
 
 
 def merged(template, constants=None, points=None, initial=None):
